@@ -80,7 +80,7 @@ def parseValue (cfg : Cfg) (ty : Ty) (data : String) : Parsed :=
         else if v < 0 then .bad
         else .val (.monetary asset (some v))
   | .portion =>
-    match parsePortionSpecific data with
+    match parsePortionGo data with
     | .ok p => .val (.portion p)
     | .error _ => .bad
 
